@@ -33,7 +33,13 @@ func NewECHKey(configID uint8, publicName string, aeads []uint16, maxNameLen uin
 	contents = append(contents, pub...)
 	var suites []byte
 	for _, a := range aeads {
-		suites = append(suites, be16(0x0001)...)
+		kdf := uint16(0x0001)
+		if a>>8 != 0 {
+			// (kdf<<8 | aead): a suite with another KDF (HKDF-SHA384 = 2, HKDF-SHA512 = 3),
+			// which the client does not implement and has to pass over
+			kdf, a = a>>8, a&0xff
+		}
+		suites = append(suites, be16(kdf)...)
 		suites = append(suites, be16(a)...)
 	}
 	contents = append(contents, be16(uint16(len(suites)))...)
